@@ -29,7 +29,8 @@ RULE = ('A: every code 200..599 x 4 texts; B: code 250 x every text (and codes 3
         'space; C: every sequence of 1..2 replies from a pool of 8 and every sequence of 3 from a pool of 3 (quick) / 8 (thorough), reading 1..k of them (exact consumption); '
         'all under ALL segmentations of the wire stream (continuation-merged). D: every byte string over '
         '{2,5,SP,-,x,CR,LF,0xFF} up to 5 (quick) / 6 (thorough) bytes then EOF, under one burst, byte-by-byte and '
-        'every single cut, against a strict three-valued reference parser.  Non-trivial = multi-line, ESC-bearing, '
+        'every single cut, against a strict three-valued reference parser; E: every sequence of 2..3 (4) lines from a 9-line menu '
+        '(same/different codes, dash/space/tab separators, bad code) x CRLF/LF.  Non-trivial = multi-line, ESC-bearing, '
         'non-ASCII, CR/LF-bearing or malformed.')
 ASSUMPTIONS = ['text symbols outside the unit alphabet behave like "a"',
                'a reply whose receiver object had enhanced_status_code=False set (banner/EHLO) is compared with a sender '
@@ -241,8 +242,12 @@ def texts(maxu):
 TEXTS_A = ['ok', 'two\r\nlines', '2.1.0 esc', '5.0.0 wrongclass\n']
 
 
+ELINES = [b'250-a', b'250 a', b'251-b', b'251 b', b'550-c', b'550 c', b'25x d', b'250-', b'250\tt']
+
+
 def configs(tier, seed):
     cfgs = [{'part': 'A', 'lo': lo, 'hi': lo + 25} for lo in range(200, 600, 25)]
+    cfgs += [{'part': 'E', 'k': k, 'of': 4} for k in range(4)]
     cfgs += [{'part': 'B', 'k': k, 'of': 48} for k in range(48)]
     cfgs += [{'part': 'C', 'k': k, 'of': 48} for k in range(48)]
     cfgs += [{'part': 'D', 'k': k, 'of': 32} for k in range(32)]
@@ -289,6 +294,21 @@ def run_config(cfg, tier, seed):
                     res.count('sequence_cases')
                 if i % 97 == cfg['k']:
                     res.sample({'part': 'C', 'replies': seq, 'wire': b2s(wire_of(list(seq))[0])})
+    elif part == 'E':
+        # multi-line shapes: every sequence of 2..3 (4 thorough) lines from a menu, CRLF or LF terminated
+        i = 0
+        for n in ((2, 3) if tier == 'quick' else (2, 3, 4)):
+            for tup in itertools.product(ELINES, repeat=n):
+                for eol in (b'\r\n', b'\n'):
+                    i += 1
+                    if i % cfg['of'] != cfg['k']:
+                        continue
+                    data = b''.join(l + eol for l in tup)
+                    for v in check_malformed(data, res):
+                        res.violation(*v)
+                    res.interesting(data)
+                    res.count('multiline_shape_cases')
+        res.sample({'part': 'E', 'input': b2s(b'250-a\r\n550 c\r\n'), 'reference': ref_parse(b'250-a\r\n550 c\r\n')[0]})
     else:
         maxl = 5 if tier == 'quick' else 6
         i = 0
